@@ -5,7 +5,7 @@ JSON encodings (rationals as `[num, den]` or a bare integer; as in Driver/C09):
   Quantity   {"m": rat, "f": rat, "d": [7 ints]}
   PyVal      {"n": rat} | Quantity              (`null` where an optional unit is absent)
   registry   [7 PyVal]
-  Rxn        {"reac": [[substance index, coefficient]…], "net": [ints]}
+  Rxn        {"reac": [[substance index, coefficient]…], "prod": [[substance index, coefficient]…]}   (dict order)
   UniqueSpec {"cls": name, "nargs": n, "idx": i, "order": o}
 Output: JSON text with rationals as strings "n/d"; a unit-carrying value is printed as {"m","f","d"} / {"n"};
 exceptions by class name.
@@ -66,8 +66,8 @@ def asNatPair (j : Json) : Except String (Nat × Nat) :=
 
 def asRxn (j : Json) : Except String Rxn := do
   let reac ← (← getArr j "reac").mapM asNatPair
-  let net ← getIntList j "net"
-  pure ⟨reac, net⟩
+  let prod ← (← getArr j "prod").mapM asNatPair
+  pure ⟨reac, prod⟩
 
 def getRxns (j : Json) : Except String (List Rxn) := do (← getArr j "rxns").mapM asRxn
 
@@ -141,6 +141,9 @@ def h : Handler := fun op j =>
       out (fun (r : Q × List Q × List (PyVal Q × Q)) =>
             "{\"t\":" ++ sr r.1 ++ ",\"c\":" ++ showQList r.2.1 ++ ",\"p\":" ++ showPairs r.2.2 ++ "}")
         (dedimTcp (← getReg j) (← getPy j "t") (← getPyList j "c") (← getPyList j "p"))
+  | "as_reactions" => do
+      out (fun (p : PyVal Q × PyVal Q) => "[" ++ showPy p.1 ++ "," ++ showPy p.2 ++ "]")
+        (asReactions (← getPy j "K") (← getPyOpt j "kf") (← getPyOpt j "kb") (← getInt j "nf") (← getInt j "nb") (← getBool j "units"))
   | "validate_term" => do
       let cs ← (← getArr j "cs").mapM asConcItem
       out showOk (validateTerm (← getPy j "k") cs)
